@@ -797,3 +797,157 @@ Proof.
   - vm_compute. right. left. reflexivity.
   - vm_compute. discriminate.
 Qed.
+
+(* ================================================================================================ *)
+(* Part E: histories — several conversions in one process, callees mutated in between               *)
+(* ================================================================================================ *)
+(* Every to_onnx call starts from a fresh FunctionRegistry, and the key of a site must be a function of the
+   site's CURRENT components.  A key computed from a state remembered from an earlier conversion (a
+   per-instance fingerprint cache keyed by id(instance)) is the current-state key only as long as no callee
+   was mutated since it was first fingerprinted. *)
+
+Definition with_state (c : rsite) (s : cstate) : rsite :=
+  mkSite (s_qualname c) (s_base c) (s_unique c) (s_is_class c) (s_obj c) (s_inst_type c) s
+         (s_in_avals c) (s_params c) (s_nout c).
+
+Definition fcache := list (nat * cstate).        (* id(instance) -> state when first fingerprinted *)
+Fixpoint cache_find (o : nat) (m : fcache) : option cstate :=
+  match m with [] => None | (o', s) :: r => if Nat.eqb o o' then Some s else cache_find o r end.
+Definition cache_add (m : fcache) (c : rsite) : fcache :=
+  match cache_find (s_obj c) m with Some _ => m | None => m ++ [(s_obj c, s_state c)] end.
+Definition cache_extend (m : fcache) (sites : list (rsite * option nat)) : fcache :=
+  fold_left (fun m ps => cache_add m (fst ps)) sites m.
+(* what a cached fingerprint makes the key see *)
+Definition stale_view (m : fcache) (c : rsite) : rsite :=
+  match cache_find (s_obj c) m with Some s => with_state c s | None => c end.
+
+Definition first_state (o : nat) (sites : list (rsite * option nat)) : option cstate :=
+  match find (fun ps => Nat.eqb o (s_obj (fst ps))) sites with Some ps => Some (s_state (fst ps)) | None => None end.
+
+Lemma cache_find_app o m m' : cache_find o (m ++ m') =
+  match cache_find o m with Some s => Some s | None => cache_find o m' end.
+Proof. induction m as [|[o' s] m IH]; simpl; auto. destruct (Nat.eqb o o'); auto. Qed.
+
+Lemma cache_find_extend o : forall sites m, cache_find o (cache_extend m sites) =
+  match cache_find o m with Some s => Some s | None => first_state o sites end.
+Proof.
+  induction sites as [|[c par] sites IH]; intro m; simpl.
+  - unfold first_state. simpl. destruct (cache_find o m); auto.
+  - unfold cache_extend in *. simpl. rewrite IH. unfold first_state. simpl. unfold cache_add.
+    destruct (cache_find (s_obj c) m) as [sc|] eqn:Ec.
+    + destruct (cache_find o m) eqn:Eo; auto.
+      destruct (Nat.eqb_spec o (s_obj c)) as [->|]; auto. rewrite Ec in Eo. discriminate.
+    + rewrite cache_find_app. destruct (cache_find o m); auto. simpl.
+      destruct (Nat.eqb o (s_obj c)); auto.
+Qed.
+
+Lemma with_state_id c : with_state c (s_state c) = c.
+Proof. destruct c. reflexivity. Qed.
+
+(* a single conversion from an empty cache, callees not mutated during it: the cached view IS the site *)
+Theorem stale_view_first_conversion sites :
+  (forall c1 c2, In c1 (map fst sites) -> In c2 (map fst sites) -> s_obj c1 = s_obj c2 -> s_state c1 = s_state c2) ->
+  forall c, In c (map fst sites) -> stale_view (cache_extend [] sites) c = c.
+Proof.
+  intros Hid c Hc. unfold stale_view. rewrite cache_find_extend. simpl. unfold first_state.
+  destruct (find (fun ps => Nat.eqb (s_obj c) (s_obj (fst ps))) sites) as [ps|] eqn:Ef.
+  - apply find_some in Ef. destruct Ef as [Hin Ho]. apply Nat.eqb_eq in Ho.
+    rewrite <- (Hid c (fst ps)); auto; [apply with_state_id | apply in_map; exact Hin].
+  - exfalso. apply in_map_iff in Hc. destruct Hc as (ps & <- & Hin).
+    pose proof (find_none _ _ Ef _ Hin) as Hn. simpl in Hn. now rewrite Nat.eqb_refl in Hn.
+Qed.
+
+Section History.
+Variables HT FPT D : Type.
+Variable hash : list nat -> HT.
+Variable fp : nat -> FPT.
+Variable HT_eq_dec : forall a b : HT, {a = b} + {a <> b}.
+Variable FPT_eq_dec : forall a b : FPT, {a = b} + {a <> b}.
+Variable denote : nat -> nat -> cstate -> list aval -> list (nat * param) -> D.
+
+Definition stale_key (m : fcache) (c : rsite) : fkey HT FPT := real_key HT FPT hash fp (stale_view m c).
+
+(* one conversion with the key as the code builds it from the current site *)
+Definition convert_current (sites : list (rsite * option nat)) :=
+  lower_sites rsite (fkey HT FPT) D (fkey_eq_dec HT FPT HT_eq_dec FPT_eq_dec)
+              (real_key HT FPT hash fp) (rsem D denote) rnin s_nout rfam sites.
+(* ... and with fingerprints remembered per instance across conversions *)
+Definition convert_stale (m : fcache) (sites : list (rsite * option nat)) :=
+  lower_sites rsite (fkey HT FPT) D (fkey_eq_dec HT FPT HT_eq_dec FPT_eq_dec)
+              (stale_key (cache_extend m sites)) (rsem D denote) rnin s_nout rfam sites.
+Fixpoint run_history_stale (m : fcache) (history : list (list (rsite * option nat))) :=
+  match history with
+  | [] => []
+  | sites :: rest => convert_stale m sites :: run_history_stale (cache_extend m sites) rest
+  end.
+
+(* the per-conversion assumptions of real_key_adequate, with "live" = the sites of THAT conversion *)
+Definition conversion_ok (sites : list (rsite * option nat)) : Prop :=
+  let live := fun c => In c (map fst sites) in
+  (forall c1 c2, live c1 -> live c2 -> s_unique c1 = false -> s_unique c2 = false ->
+     s_qualname c1 = s_qualname c2 -> s_obj c1 = s_obj c2 ->
+     s_state c1 = s_state c2 /\ s_inst_type c1 = s_inst_type c2) /\
+  (forall c1 c2, live c1 -> live c2 -> s_unique c1 = true -> s_unique c2 = true ->
+     s_is_class c1 = false -> s_is_class c2 = false ->
+     s_qualname c1 = s_qualname c2 -> s_state c1 = s_state c2) /\
+  Forall (fun ps => clean live (fst ps)) sites.
+
+(* the current-state key stays sound along EVERY history: whatever happened to the callees between two
+   conversions, each conversion's call nodes name definitions of the function the site denotes NOW *)
+Theorem current_key_sound_along_histories :
+  (forall b1 b2, hash b1 = hash b2 -> b1 = b2) ->
+  (forall a b, fp a = fp b -> a = b) ->
+  (forall c1 c2, rsem D denote c1 = rsem D denote c2 -> s_nout c1 = s_nout c2) ->
+  forall history, Forall conversion_ok history ->
+  Forall (fun sites => forall c, In c (st_calls _ _ _ (convert_current sites)) ->
+            d_sem _ _ (c_def _ _ _ c) = rsem D denote (c_site _ _ _ c) /\
+            c_nin _ _ _ c = d_nin _ _ (c_def _ _ _ c) /\ c_nout _ _ _ c = d_nout _ _ (c_def _ _ _ c)) history.
+Proof.
+  intros Hh Hf Hno history Hok. eapply Forall_impl; [|exact Hok].
+  intros sites (Hid & Hfun & Hcl) c Hc.
+  apply (real_dedup_sound HT FPT D hash fp HT_eq_dec FPT_eq_dec denote (fun c => In c (map fst sites)) Hh Hf Hid Hfun Hno sites Hcl c Hc).
+Qed.
+
+(* a single conversion with a cold cache behaves like the current-state key *)
+Theorem stale_key_first_conversion sites :
+  (forall c1 c2, In c1 (map fst sites) -> In c2 (map fst sites) -> s_obj c1 = s_obj c2 -> s_state c1 = s_state c2) ->
+  forall c, In c (map fst sites) -> stale_key (cache_extend [] sites) c = real_key HT FPT hash fp c.
+Proof. intros Hid c Hc. unfold stale_key. now rewrite stale_view_first_conversion. Qed.
+
+End History.
+
+(* the hazard: two unique=True instances start identical, are converted, one is updated in place, and are
+   converted again.  With remembered fingerprints the second conversion still merges them: the call node
+   of the updated instance names the definition built from the other one. *)
+Definition h_site (obj shown : nat) : rsite := mkSite 0 0 true true obj 3 (mkState shown 0) [([2; 3], 1)] [] 1.
+Definition h_history : list (list (rsite * option nat)) :=
+  [ [(h_site 1 4, None); (h_site 2 4, None)];          (* export #1: identical states *)
+    [(h_site 1 4, None); (h_site 2 5, None)] ].        (* instance 2 mutated in place; export #2 *)
+Definition h_denote (q t : nat) (s : cstate) (a : list aval) (p : list (nat * param)) := (q, t, s, a, p).
+
+Lemma h_conv_ok a b : conversion_ok [(h_site 1 a, None); (h_site 2 b, None)].
+Proof.
+  unfold conversion_ok. simpl. split; [|split].
+  - intros c1 c2 H1 H2 U1. destruct H1 as [<-|[<-|[]]]; simpl in U1; discriminate.
+  - intros c1 c2 H1 H2 _ _ I1. destruct H1 as [<-|[<-|[]]]; simpl in I1; discriminate.
+  - constructor; [|constructor; [|constructor]];
+      (split; [simpl; auto | split; [intros n v [] | intros _ _; reflexivity]]).
+Qed.
+
+Theorem stale_key_breaks_adequacy :
+  exists history st c,
+    Forall conversion_ok history /\
+    nth_error (run_history_stale (list nat) nat _ (fun b => b) (fun s => s) (list_eq_dec Nat.eq_dec) Nat.eq_dec h_denote [] history) 1 = Some st /\
+    In c (st_calls _ _ _ st) /\
+    d_sem _ _ (c_def _ _ _ c) <> rsem _ h_denote (c_site _ _ _ c).
+Proof.
+  exists h_history. eexists. eexists. split; [|split; [vm_compute; reflexivity | split]].
+  - constructor; [apply h_conv_ok | constructor; [apply h_conv_ok | constructor]].
+  - right. left. reflexivity.
+  - vm_compute. discriminate.
+Qed.
+
+(* the same history under the current-state key: two definitions in the second conversion *)
+Example current_key_on_h_history :
+  map (fun sites => length (st_defs _ _ _ (predict sites))) h_history = [1; 2].
+Proof. vm_compute. reflexivity. Qed.
